@@ -105,3 +105,26 @@ fn fc08_markerless_stream_is_accepted() {
     assert!(r.is_ok(), "marker-less stream now rejected: the known finding F-C08 no longer reproduces");
     assert_eq!(&out[..], &data[..]);
 }
+
+/// D5 (C18): an .xz file that declares the unsupported SHA-256 check (0x0A) but contains no block was accepted
+/// (SHA-256 was refused only when a block's check field was validated).
+#[test]
+fn d5_sha256_without_blocks() {
+    let mut xz: Vec<u8> = vec![0xFD, b'7', b'z', b'X', b'Z', 0x00, 0x00, 0x0A];
+    let c = crc32(&xz[6..8]);
+    xz.extend_from_slice(&c.to_le_bytes());
+    // index: indicator 0x00, zero records, padding to a multiple of four, CRC32
+    let idx = [0x00u8, 0x00, 0x00, 0x00];
+    xz.extend_from_slice(&idx);
+    xz.extend_from_slice(&crc32(&idx).to_le_bytes());
+    // footer: CRC32 of (backward size, flags), backward size = index size / 4 - 1 = 1, flags, magic
+    let mut ft: Vec<u8> = Vec::new();
+    ft.extend_from_slice(&1u32.to_le_bytes());
+    ft.extend_from_slice(&[0x00, 0x0A]);
+    xz.extend_from_slice(&crc32(&ft).to_le_bytes());
+    xz.extend_from_slice(&ft);
+    xz.extend_from_slice(b"YZ");
+    let mut out = Vec::new();
+    let r = lzma_rs::xz_decompress(&mut io::BufReader::new(&xz[..]), &mut out);
+    assert!(r.is_err(), "a stream declaring the unsupported SHA-256 check was accepted: {:?}", r);
+}
